@@ -44,6 +44,9 @@
 #define MAXCONC 2
 #endif
 #define MAXT 12
+#ifndef MAXCHAIN
+#define MAXCHAIN 12
+#endif
 #define MAXB 12
 typedef struct S_class_tbb__detail__d1__task task_t;
 typedef struct S_class_tbb__detail__d1__task_group_context ctx_t;
@@ -71,7 +74,7 @@ static task_t* bag[MAXT]; static unsigned nbag;
 static ctx_t* run_ctx; static wait_t* run_wait;
 static unsigned depth, cur_slot, n_hooks, n_drain;
 static unsigned nestmask = NESTMASK, drainmask = DRAIN, nestpol = NESTPOL, force_local;   /* task order of the current run */
-static unsigned n_alloc, n_free, n_notify, n_tasks_run;
+static unsigned n_alloc, n_free, n_notify, n_tasks_run, n_waits;
 static int cancelled;
 static u64 dummy_pool;
 /* ghost state about bodies */
@@ -114,6 +117,29 @@ void vp_body_join(u32 into, u32 from) {
   }
 }
 
+#ifdef SCAN
+/* ---- parallel_scan observers ---- */
+static u64 seq_of(int lo, int hi) { u64 q = 0; for (int i = 0; i < NELEM; i++) if (i >= lo && i < hi) q = (q << 4) | (u64)((i + 1) & 15); return q; }
+static int final_count[NELEM];
+/* a pass over [b,e) starts; the body's running sum at that moment is (prefix_seq, prefix_len) */
+void vp_scan_pass(u32 id, u32 b, u32 e, u32 is_final, u64 prefix_seq, u32 prefix_len) {
+  VP_ASSERT((int)b < (int)e && (int)b >= 0 && (int)e <= NELEM, "scan pass on an empty or foreign range");
+  VP_ASSERT(prefix_len <= b, "running sum holds more operands than lie left of the subrange");
+  if (prefix_len <= b) VP_ASSERT(prefix_seq == seq_of((int)(b - prefix_len), (int)b), "running sum is not the fold of the operands immediately left of the subrange, in order");
+  if (is_final) {
+    VP_ASSERT(prefix_len == b, "final pass starts with an incomplete prefix: wrong scan output");
+    for (int i = 0; i < NELEM; i++) if (i >= (int)b && i < (int)e) { VP_ASSERT(final_count[i] == 0, "final pass run twice on an element"); final_count[i]++; }
+  }
+}
+void vp_body_rjoin(u32 into, u32 left) {
+  VP_ASSERT(into < n_bodies && left < n_bodies && !destroyed[into] && !destroyed[left], "reverse_join on a destroyed body");
+  VP_ASSERT(!active[into] && !active[left], "reverse_join while one of the two bodies is still being run");
+}
+void vp_body_assign(u32 into, u32 from) {
+  VP_ASSERT(into < n_bodies && from < n_bodies && !destroyed[into] && !destroyed[from], "assign on a destroyed body");
+  VP_ASSERT(!active[into] && !active[from], "assign while one of the two bodies is still being run");
+}
+#endif
 /* ---- r1:: entry points = the scheduler model ---- */
 /* cancellation arrives (from some other thread) just before the CANCEL-th observation point (1-based): an observation point is
    every poll of the context by the task code and every task dispatch. CANCEL=0: never. */
@@ -123,7 +149,8 @@ void _ZN3tbb6detail2r110initializeERNS0_2d118task_group_contextE(ctx_t* c) { vp_
 void _ZN3tbb6detail2r17destroyERNS0_2d118task_group_contextE(ctx_t* c) {}
 /* typed allocation (cbmc derives the object type from malloc(sizeof(T)); an untyped byte object would make every field read
    a byte_extract that symex cannot constant-fold, and then no loop bound in the task code is concrete) */
-#ifdef DETERMINISTIC
+#ifdef SCAN
+#elif defined(DETERMINISTIC)
 #define TASK_T struct S_struct_tbb__detail__d1__start_deterministic_reduce
 #define NODE_T struct S_struct_tbb__detail__d1__deterministic_reduction_tree_node
 #else
@@ -133,8 +160,13 @@ void _ZN3tbb6detail2r17destroyERNS0_2d118task_group_contextE(ctx_t* c) {}
 static u8* alloc_obj(pool_t** pool, u64 n) {
   u8* p;
   *pool = (pool_t*)&dummy_pool; n_alloc++;
+#ifndef SCAN
   VP_ASSERT(n == sizeof(TASK_T) || n == sizeof(NODE_T), "VP: allocation of an unexpected size");
   if (n == sizeof(TASK_T)) p = malloc(sizeof(TASK_T)); else p = malloc(sizeof(NODE_T));
+#else
+  VP_ASSERT(n <= 256, "VP: task larger than the field-sensitive array limit");
+  p = malloc(n);     /* four task types, two of each size: untyped objects; --max-field-sensitivity-array-size 256 keeps them foldable */
+#endif
   __CPROVER_assume(p != 0); return p;
 }
 u8* _ZN3tbb6detail2r18allocateERPNS0_2d117small_object_poolEm(pool_t** pool, u64 n) { return alloc_obj(pool, n); }
@@ -152,7 +184,7 @@ void _ZN3tbb6detail2r15spawnERNS0_2d14taskERNS2_18task_group_contextE(task_t* t,
 void _ZN3tbb6detail2r15spawnERNS0_2d14taskERNS2_18task_group_contextEt(task_t* t, ctx_t* c, u16 slot) {
   _ZN3tbb6detail2r15spawnERNS0_2d14taskERNS2_18task_group_contextE(t, c); }
 u16 _ZN3tbb6detail2r114execution_slotEPKNS0_2d114execution_dataE(ed_t* ed) { return (u16)cur_slot; }
-u32 _ZN3tbb6detail2r115max_concurrencyEPKNS0_2d115task_arena_baseE(void* a) { return MAXCONC; }
+u32 _ZN3tbb6detail2r115max_concurrencyEPKNS0_2d115task_arena_baseE(struct S_class_tbb__detail__d1__task_arena_base* a) { return MAXCONC; }
 u8 _ZN3tbb6detail2r128is_group_execution_cancelledERNS0_2d118task_group_contextE(ctx_t* c) {
   VP_ASSERT(c == run_ctx, "cancellation asked about a foreign context");
   cancel_point();
@@ -164,19 +196,27 @@ u8* _ZN3tbb6detail2r122cache_aligned_allocateEm(u64 n) {
 void _ZN3tbb6detail2r124cache_aligned_deallocateEPv(u8* p) { VP_ASSERT(p == (u8*)aff_array && aff_live, "cache_aligned_deallocate of a foreign block"); aff_live = 0; }
 void _ZN3tbb6detail2r114notify_waitersEm(u64 addr) { VP_ASSERT(addr == (u64)run_wait, "notify for a foreign wait object"); n_notify++; }
 
+static unsigned n_dispatch;
+static void run_chain(task_t* t, ed_t* ed) {   /* a task may return a successor that the same thread runs next (scheduler bypass) */
+  for (unsigned i = 0; i < MAXCHAIN; i++) if (t) {
+    cancel_point();
+    n_tasks_run++;
+    t = cancelled ? vp_task_cancel(t, ed) : vp_task_execute(t, ed);   /* what the dispatcher does with a task of a cancelled group */
+  }
+  VP_ASSERT(t == 0, "VP bound: bypass chain longer than MAXCHAIN");
+}
 static void run_one(task_t* t) {
   ed_t ed;
   unsigned save = cur_slot;
   vp_ed_init(&ed, run_ctx);
   if (force_local) cur_slot = 0; else
-#ifdef STOLEN   /* concrete per query: bit i = the i-th dispatched task runs on another slot than it was spawned from */
-  cur_slot = (STOLEN >> (n_tasks_run - 1)) & 1;
+#ifdef STOLEN   /* concrete per query: bit i = the i-th task taken from the bag runs on another slot than it was spawned from */
+  cur_slot = (STOLEN >> n_dispatch) & 1;
 #else
   cur_slot = (unsigned)vp_nd_range(0, 1);            /* 0: same slot it was spawned from; 1: stolen */
 #endif
-  cancel_point();
-  n_tasks_run++;
-  if (cancelled) vp_task_cancel(t, &ed); else vp_task_execute(t, &ed);   /* what the dispatcher does with a task of a cancelled group */
+  n_dispatch++;
+  run_chain(t, &ed);
   cur_slot = save;
 }
 static task_t* take(int oldest) {
@@ -191,22 +231,25 @@ static void run_some(void) {
 }
 void _ZN3tbb6detail2r116execute_and_waitERNS0_2d14taskERNS2_18task_group_contextERNS2_12wait_contextES6_(task_t* t, ctx_t* tc, wait_t* w, ctx_t* wc) {
   run_ctx = tc; run_wait = w; cur_slot = 0;
-  {
-    ed_t ed; vp_ed_init(&ed, run_ctx); n_tasks_run++;
-    vp_task_execute(t, &ed);                          /* the root task is run by the calling thread, never stolen */
-  }
+  { ed_t ed; vp_ed_init(&ed, run_ctx); run_chain(t, &ed); }   /* the root task is run by the calling thread, never stolen */
+  n_waits++;
   for (unsigned s = 0; s < MAXT; s++) if (nbag > 0) { unsigned d = n_drain++; run_one(take(drainmask >> d & 1)); }
   VP_ASSERT(nbag == 0, "VP bound: more tasks than the drain loop runs");
   VP_ASSERT(vp_wait_refs(w) == 0, "all tasks ran but the wait object was not released: wait_for_all would hang");
 }
 
 static void check_run(void) {
-  VP_ASSERT(n_notify == 1, "wait released not exactly once");
+  VP_ASSERT(n_notify == n_waits && n_waits >= 1, "wait released not exactly once per wait");
   VP_ASSERT(n_alloc == n_free, "a task or tree node was never freed");
   for (unsigned i = 1; i < MAXB; i++) if (i < n_bodies) {
     VP_ASSERT(destroyed[i], "split-off body never destroyed");
+#ifndef SCAN
     if (!cancelled) VP_ASSERT(joined[i], "split-off body never joined back: its partial result is lost");
+#endif
   }
+#ifdef SCAN
+  if (!cancelled) for (int i = 0; i < NELEM; i++) VP_ASSERT(final_count[i] == 1, "an element never got its final pass");
+#endif
   if (!cancelled) {
     u64 expect = 0;
     for (unsigned i = 0; i < NELEM; i++) expect = (expect << 4) | ((i + 1) & 15);
@@ -225,7 +268,7 @@ int main(void) {
   check_run();
   u32 ref_shape = vp_result_shape(); unsigned ref_bodies = n_bodies, ref_tasks = n_tasks_run;
   for (unsigned i = 0; i < MAXB; i++) { split_from[i] = 0; joined[i] = 0; destroyed[i] = 0; active[i] = 0; }
-  n_bodies = 1; n_alloc = n_free = n_notify = n_tasks_run = n_hooks = n_drain = n_cancel_points = 0; nbag = 0; depth = 0;
+  n_bodies = 1; n_alloc = n_free = n_notify = n_tasks_run = n_hooks = n_drain = n_cancel_points = n_waits = n_dispatch = 0; nbag = 0; depth = 0;
   nestmask = NESTMASK; drainmask = DRAIN; force_local = 0;
   vp_reduce(0, NELEM, GRAIN);
   check_run();
